@@ -7,10 +7,10 @@ PROP = "C18"
 GENS = ["gen_speech", "gen_dicgrammar", "gen_conj", "gen_skk", "gen_skknotes"]
 CONE = ["Base/Str.v", "Base/ListUtil.v", "Base/Classes.v", "Dic/Speech.v", "Dic/PegAlt.v", "Dic/TextFormat.v", "Dic/TextFormatProofs.v", "Dic/RestoreProofs.v",
         "Dic/ConjRule.v", "Dic/Conjugation.v", "Dic/Gojuon.v", "Dic/ConjProofs.v",
-        "Skk/SkkLine.v", "Skk/SkkProofs.v", "Skk/SkkParse.v", "Skk/Notes.v", "Skk/NotesConv.v", "Skk/NotesProofs.v", "Skk/NotesParse.v", "Skk/NotesSer.v", "Props/C18.v",
+        "Skk/SkkLine.v", "Skk/SkkProofs.v", "Skk/SkkParse.v", "Skk/Notes.v", "Skk/NotesConv.v", "Skk/NotesProofs.v", "Skk/NotesParse.v", "Skk/NotesSer.v", "Skk/NotesPrint.v", "Skk/NotesFaithful.v", "Props/C18.v",
         "Gen/SpeechNames.v", "Gen/DicGrammar.v", "Gen/ConjTables.v", "Gen/SkkGrammar.v", "Gen/SkkOkuri.v"]
 THEOREMS = ["C18_skk_faithful", "C18_simple_emitted_valid", "C18_nouns_line_to_dictionary", "C18_propers_line_to_dictionary", "C18_tankan_line_to_dictionary",
-            "C18_notes_total", "C18_notes_fail_only_unsupported", "C18_parse_note_wf", "C18_notes_emitted_valid",
+            "C18_notes_faithful", "C18_notes_total", "C18_notes_fail_only_unsupported", "C18_parse_note_wf", "C18_notes_emitted_valid",
             "C18_notes_line_to_dictionary", "C18_base_verb_conjugates", "C18_base_verb_refuted"]
 IMPORTS = "From Chokan Require Import Base.Str Base.ListUtil Dic.Speech Skk.SkkLine Skk.Notes Skk.NotesConv Skk.NotesSer."
 
